@@ -15,6 +15,14 @@ import (
 
 const verifDir = "/verif"
 
+// outDir: where evidence and replay files go (GOVC_OUT redirects them for self-test runs on mutated copies)
+func outDir() string {
+	if d := os.Getenv("GOVC_OUT"); d != "" {
+		return d
+	}
+	return verifDir
+}
+
 func main() {
 	if len(os.Args) < 2 {
 		fmt.Fprintln(os.Stderr, "usage: govc check|func|list|replay|selftest ...")
@@ -176,9 +184,20 @@ func loadKnownFindings() []KnownFinding {
 	return out
 }
 
+// baseObl: obligation name without the variant ("@...") and the term-level sub-conjunct ("/cN").
 func baseObl(name string) string {
 	if i := strings.Index(name, "@"); i >= 0 {
-		return name[:i]
+		name = name[:i]
+	}
+	if i := strings.LastIndex(name, "/c"); i >= 0 && i > strings.Index(name, "/") {
+		rest := name[i+2:]
+		digits := 0
+		for digits < len(rest) && rest[digits] >= '0' && rest[digits] <= '9' {
+			digits++
+		}
+		if digits > 0 {
+			name = name[:i] + rest[digits:]
+		}
 	}
 	return name
 }
@@ -409,7 +428,7 @@ func report(p *Program, prop, tier string, seed int, frs []*FuncResult, extra *E
 	rc := 0
 	violations := 0
 	knownHit := 0
-	os.MkdirAll(filepath.Join(verifDir, "replays", prop), 0o755)
+	os.MkdirAll(filepath.Join(outDir(), "replays", prop), 0o755)
 	for _, o := range failed {
 		if kf, ok := openKF[baseObl(o.Name)]; ok {
 			fmt.Printf("KNOWN-FINDING: property=%s %s [%s]\n", prop, kf.What, o.Name)
@@ -438,7 +457,7 @@ func report(p *Program, prop, tier string, seed int, frs []*FuncResult, extra *E
 		for _, b := range extra.Bounded {
 			if v, ok := b["violation"].(string); ok && v != "" {
 				violations++
-				path := filepath.Join(verifDir, "replays", prop, sanitize(fmt.Sprint(b["name"]))+".json")
+				path := filepath.Join(outDir(), "replays", prop, sanitize(fmt.Sprint(b["name"]))+".json")
 				data, _ := json.MarshalIndent(b, "", " ")
 				os.WriteFile(path, data, 0o644)
 				fmt.Printf("VIOLATION property=%s replay=%s bounded-check %v: %s\n", prop, path, b["name"], v)
@@ -481,8 +500,8 @@ func report(p *Program, prop, tier string, seed int, frs []*FuncResult, extra *E
 		ev.Assumptions = []string{"none beyond the trusted base"}
 	}
 	data, _ := json.MarshalIndent(ev, "", " ")
-	os.MkdirAll(filepath.Join(verifDir, "evidence"), 0o755)
-	os.WriteFile(filepath.Join(verifDir, "evidence", prop+".json"), data, 0o644)
+	os.MkdirAll(filepath.Join(outDir(), "evidence"), 0o755)
+	os.WriteFile(filepath.Join(outDir(), "evidence", prop+".json"), data, 0o644)
 	fmt.Printf("property=%s tier=%s obligations=%d discharged=%d known-findings=%d violations=%d covers=%d/%d wall=%.1fs\n",
 		prop, tier, total, discharged, knownHit, violations, coversOK, covers, wall.Seconds())
 	return rc
